@@ -2,10 +2,13 @@ package main
 
 import (
 	"bufio"
+	"bytes"
+	"context"
 	"encoding/json"
 	"fmt"
 	"math/rand"
 	"os"
+	"os/exec"
 	"path/filepath"
 	"strings"
 	"time"
@@ -192,6 +195,10 @@ func selfTest(c *Ctx) (int, error) {
 		}
 		c.logf("%s with %s = TRUE violates %s, as it must", dv[0], dv[2], res.Violated)
 	}
+	// the position arithmetic of the output window for ALL sizes (Apalache, inductive invariant)
+	if err := c.windowBoundsProof(); err != nil {
+		return 0, err
+	}
 	// the instance model: working state recycled through a shared pool by an instance that goes
 	// on using it (what seeded change C17-f43 does) makes instances depend on each other
 	{
@@ -300,4 +307,37 @@ func devCfg(cfg, dev string) string {
 		cfg = strings.Replace(cfg, "DevNoClosedState = FALSE", "DevNoClosedState = TRUE", 1)
 	}
 	return cfg
+}
+
+// windowBoundsProof discharges the three obligations of WindowBounds' inductive invariant with
+// Apalache (unbounded integers): Init => IndInv, IndInv /\ Next => IndInv', IndInv => Safe.
+func (c *Ctx) windowBoundsProof() error {
+	if _, err := exec.LookPath("apalache-mc"); err != nil {
+		c.logf("apalache-mc not found: the parametric proof of WindowBounds is skipped")
+		return nil
+	}
+	dir, err := os.MkdirTemp(c.Scratch, "apalache")
+	if err != nil {
+		return err
+	}
+	defer os.RemoveAll(dir)
+	b, err := os.ReadFile(filepath.Join(c.specDir(), "WindowBounds.tla"))
+	if err != nil {
+		return err
+	}
+	if err := os.WriteFile(filepath.Join(dir, "WindowBounds.tla"), b, 0o644); err != nil {
+		return err
+	}
+	for _, ob := range [][]string{{"--init=Init", "--inv=IndInv", "--length=0"}, {"--init=IndInit", "--inv=IndInv", "--length=1"}, {"--init=IndInit", "--inv=Safe", "--length=0"}} {
+		ctx, cancel := context.WithTimeout(context.Background(), 5*time.Minute)
+		cmd := exec.CommandContext(ctx, "apalache-mc", append(append([]string{"check"}, ob...), "--cinit=CInit", "--out-dir="+filepath.Join(dir, "out"), "WindowBounds.tla")...)
+		cmd.Dir = dir
+		out, _ := cmd.CombinedOutput()
+		cancel()
+		if !bytes.Contains(out, []byte("The outcome is: NoError")) {
+			return fmt.Errorf("WindowBounds: obligation %v not discharged by Apalache: %s", ob, lastLines(string(out), 6))
+		}
+	}
+	c.logf("WindowBounds: Init => IndInv, IndInv /\\ Next => IndInv', IndInv => Safe discharged by Apalache for all sizes with Slack, Slop >= 2 + MaxCopy")
+	return nil
 }
